@@ -357,3 +357,45 @@ def check_no_hidden_state(r, rule, roots, allowed=(("pyrepseq.nn._to_triplets", 
         r.rep.ob(rule, q, False, "module-level state written during a call survives into later calls (results would depend on call history)", where_of(r.P, r.P.functions[q], e.node),
                  expected="no store to module-level objects", found=f"{w}  [{root[1]}]", key=f"hidden state {root[1]}")
     return len(reach)
+
+
+DROP_METHODS = {"dropna", "drop_duplicates", "drop", "query", "head", "tail", "nlargest", "nsmallest", "truncate"}
+
+
+def check_no_dropping(r, rule, qualnames, what):
+    """Lint for statistics over *all* elements of a sample: on the way from the argument to the statistic nothing may drop elements -
+    no dropna / drop_duplicates / drop / query / head ..., no boolean-mask selection.  (Recognisably wrong whatever surrounds it: the
+    statement counts every element / every pair.)"""
+    from .rules import where_of
+    from .terms import head, show, strip, strip_all, walk
+    rep = r.rep
+    seen = set()
+    todo = [q for q in qualnames if q in r.P.functions]
+    todo += [x for x, f in r.P.functions.items() if f.parent in todo]
+    for q in todo:
+        s = r.A.summary(q)
+        rep.analysed(q)
+        hits = 0
+        for e in s.events:
+            if e.kind == "call":
+                c = strip(e["term"])
+                f = strip(c[1])
+                if head(f) == "attr" and f[2] in DROP_METHODS and any(x[0] in ("param", "lparam") for x in walk(f[1])):
+                    key = (q, f[2], getattr(e.node, "lineno", 0))
+                    if key not in seen:
+                        seen.add(key)
+                        hits += 1
+                        rep.ob(rule, q, False, what, where_of(r.P, s.func, e.node), expected="every element of the argument takes part", found=f"{show(c, 90)} leaves elements out",
+                               key=f"drops elements .{f[2]}()", lint=True)
+            elif e.kind == "load_sub":
+                idx = strip_all(e["index"])
+                mask = head(idx) == "cmp" and idx[1] in ("<", "<=", ">", ">=", "!=", "==") or (head(idx) == "un" and idx[1] in ("~", "not")) or (head(idx) == "bin" and idx[1] in ("&", "|"))
+                if mask and any(x[0] in ("param", "lparam") for x in walk(e["obj"])):
+                    key = (q, "mask", getattr(e.node, "lineno", 0))
+                    if key not in seen:
+                        seen.add(key)
+                        hits += 1
+                        rep.ob(rule, q, False, what, where_of(r.P, s.func, e.node), expected="every element of the argument takes part", found=f"boolean selection {show(e['obj'], 40)}[{show(idx, 50)}] leaves elements out",
+                               key="drops elements by mask", lint=True)
+        if not hits:
+            rep.ob(rule, q, True, what, where_of(r.P, s.func, s.func.node), key="no element dropped")
